@@ -15,7 +15,7 @@ META = {
              'state, raised or warned.'),
     'exhaustive_part': 'reference-shape product per kind is complete for each sampled state; states are sampled',
     'workers': {'quick': 12, 'thorough': 16},
-    'watchdog': {'quick': 300, 'thorough': 1800},
+    'watchdog': {'quick': 600, 'thorough': 3600},
     'assumptions': ['roMetadataReplace with two carried elements of the same identity is outside the claim'],
 }
 
